@@ -198,6 +198,8 @@ func buildUniverse() {
 		})
 	}
 
+	buildServerUniverse() // request paths of the server-level families (server.go)
+
 	// self-test of the reference cleaner against the standard library (harness sanity only)
 	for _, p := range paths {
 		if got := path.Clean(p.raw); got != joinSegs(p.segs) && !(got == "/" && len(p.segs) == 1 && p.segs[0] == "") {
